@@ -66,6 +66,21 @@ def run(m: Model, r: Report, tier: str) -> None:
     base_req = m.require_function(f"{BASE}.BaseTransport.request_unsafe")
     writes_in_base = [n for n in ast.walk(base_req.node) if isinstance(n, ast.Call) and ast.unparse(n.func) == "self.write"]
     r.check(len(writes_in_base) == 1, "R1", f"{base_req.qualname}#one-write", f"{len(writes_in_base)} write calls per transport request", loc=base_req.loc)
+    # the reply wait starts when the request is on the wire: no deadline scope that was opened before the write may cover the read
+    reads_in_base = [n for n in ast.walk(base_req.node) if isinstance(n, ast.Call) and ast.unparse(n.func) == "self.read"]
+    if len(reads_in_base) != 1:
+        raise AnalysisError(f"{base_req.qualname}: expected one self.read call, found {len(reads_in_base)}")
+    shared = [w for w in ast.walk(base_req.node) if isinstance(w, (ast.AsyncWith, ast.With)) and
+              any("timeout" in ast.unparse(it.context_expr) for it in w.items) and
+              any(x is reads_in_base[0] for x in ast.walk(w)) and any(x is wc for wc in writes_in_base for x in ast.walk(w))]
+    shared += [c for c in ast.walk(base_req.node) if isinstance(c, ast.Call) and ast.unparse(c.func).endswith("wait_for") and
+               any(x is reads_in_base[0] for x in ast.walk(c)) and any(x is wc for wc in writes_in_base for x in ast.walk(c))]
+    tpar = next((p_ for p_ in base_req.params() if p_ == "timeout"), None)
+    rd_args = [ast.unparse(a) for a in reads_in_base[0].args[:1]] + [ast.unparse(k.value) for k in reads_in_base[0].keywords if k.arg == "timeout"]
+    r.check(not shared and tpar is not None and rd_args == [tpar], "R5", f"{base_req.qualname}#reply-window",
+            "the read after the write must wait for the caller's full timeout: " +
+            ("a deadline opened before the write also covers the read, so time spent writing shortens the reply window and an in-time reply is dropped" if shared
+             else f"read is called with timeout {rd_args}"), loc=base_req.loc)
     rd = m.require_function(f"{CLIENT}.UDSClient._read")
     tcalls = sorted({n.func.attr for n in ast.walk(rd.node) if isinstance(n, ast.Call) and isinstance(n.func, ast.Attribute)
                      and ast.unparse(n.func.value) == "self.transport"})
